@@ -214,7 +214,7 @@ PROPS = {
         'level_text': 'Proof: every writing function is verified against the sink model: it reports Ok only if every byte of its output '
                       'was accepted (sink\' == sink + expected bytes) and cannot panic; a failing write/flush propagates through `?`.',
         'level_note': 'The error *variant* (Error::Io) follows from impl From<io::Error> (verified) and the definition of `?` (Verus only '
-                      'knows `is Err` for a converting `?`). "Flushed after the last write" is not expressed by the sink model.',
+                      'knows `is Err` for a converting `?`). The sink model carries a ghost `flushed` state (true after a successful flush, unknown after a write): a build is reported finished only with the flush following the last write.',
         'explanation': '',
         'assumptions': [],
     },
